@@ -111,7 +111,7 @@ func c08Run(k int, forms bool, breaks bool) {
 	}
 	got, ok := returnExprOf(out, "f")
 	verifAssert(ok, "emitted function has a return expression")
-	verifAssert(got == c08Fold(operands, ops), "operator chain groups by the published table, left-associative")
+	verifAssert(c08Same(got, c08Fold(operands, ops)), "operator chain groups by the published table, left-associative")
 	verifCover("end")
 }
 
@@ -135,7 +135,7 @@ func Harness_C08_Parens() {
 	got, _ := returnExprOf(out, "f")
 	inner := c08Print("b", c08Lookup(o1), "c")
 	want := c08Fold([]string{"a", inner, "d"}, []c08Op{c08Lookup(o0), c08Lookup(o2)})
-	verifAssert(got == want, "explicit parentheses are preserved")
+	verifAssert(c08Same(got, want), "explicit parentheses are preserved")
 	verifCover("end")
 }
 
@@ -177,7 +177,7 @@ func Harness_C08_Pipe() {
 	}
 	got, _ := returnExprOf(out, "f")
 	inner := c08Print("a", o, "b")
-	verifAssert(got == "frt.Pipe(frt.Pipe("+inner+",g),h)", "|> is the loosest operator and nests to the left")
+	verifAssert(c08Same(got, "frt.Pipe(frt.Pipe("+inner+",g),h)"), "|> is the loosest operator and nests to the left")
 	verifCover("end")
 }
 
@@ -216,4 +216,139 @@ func Harness_C08_SymbolicRanks() {
 	got, _ := returnExprOf(out, "fn")
 	verifAssert(got == c08Fold(operands, ops), "grouping follows precedence climbing for every rank table")
 	verifCover("end")
+}
+
+// c08Canon re-reads an emitted Go expression with GO's precedence rules and
+// prints it fully parenthesised, so that the comparison below is about the
+// grouping the Go compiler will see, not about which parentheses the emitter
+// happens to write (dropping a redundant pair is not a violation, dropping a
+// needed one is).  ok=false: not an expression of the emitted subset.
+type c08Parser struct {
+	s  string
+	at int
+	ok bool
+}
+
+func c08GoRank(op string) int {
+	switch op {
+	case "||":
+		return 1
+	case "&&":
+		return 2
+	case "==", "!=", "<", "<=", ">", ">=":
+		return 3
+	case "+", "-":
+		return 4
+	case "*", "/":
+		return 5
+	}
+	return 0
+}
+
+func (p *c08Parser) peekOp() string {
+	if p.at+2 <= len(p.s) {
+		if two := p.s[p.at : p.at+2]; c08GoRank(two) > 0 {
+			return two
+		}
+	}
+	if p.at+1 <= len(p.s) {
+		if one := p.s[p.at : p.at+1]; c08GoRank(one) > 0 {
+			return one
+		}
+	}
+	return ""
+}
+
+func c08IsIdent(c byte) bool {
+	return c == '_' || c == '.' || (c >= 'a' && c <= 'z') || (c >= 'A' && c <= 'Z') || (c >= '0' && c <= '9')
+}
+
+func (p *c08Parser) primary() string {
+	if p.at >= len(p.s) {
+		p.ok = false
+		return ""
+	}
+	if p.s[p.at] == '!' {
+		p.at++
+		return "!" + p.primary()
+	}
+	if p.s[p.at] == '(' {
+		p.at++
+		e := p.expr(1)
+		if p.at >= len(p.s) || p.s[p.at] != ')' {
+			p.ok = false
+			return ""
+		}
+		p.at++
+		return e
+	}
+	start := p.at
+	for p.at < len(p.s) && c08IsIdent(p.s[p.at]) {
+		p.at++
+	}
+	if p.at == start {
+		p.ok = false
+		return ""
+	}
+	name := p.s[start:p.at]
+	if p.at < len(p.s) && p.s[p.at] == '(' {
+		p.at++
+		out := name + "("
+		for n := 0; p.ok; n++ {
+			if p.at < len(p.s) && p.s[p.at] == ')' {
+				break
+			}
+			if n > 0 {
+				if p.at >= len(p.s) || p.s[p.at] != ',' {
+					p.ok = false
+					return ""
+				}
+				p.at++
+				out += ","
+			}
+			out += p.expr(1)
+		}
+		if !p.ok || p.at >= len(p.s) {
+			p.ok = false
+			return ""
+		}
+		p.at++
+		return out + ")"
+	}
+	return name
+}
+
+func (p *c08Parser) expr(minRank int) string {
+	lhs := p.primary()
+	for p.ok {
+		op := p.peekOp()
+		r := c08GoRank(op)
+		if r == 0 || r < minRank {
+			break
+		}
+		p.at += len(op)
+		rhs := p.expr(r + 1)
+		lhs = "(" + lhs + op + rhs + ")"
+	}
+	return lhs
+}
+
+func c08Canon(s string) (string, bool) {
+	p := &c08Parser{s: s, ok: true}
+	e := p.expr(1)
+	if !p.ok || p.at != len(s) {
+		return s, false
+	}
+	return e, true
+}
+
+// c08Same: the same grouping under Go's rules (the same text when either side
+// is outside the subset c08Canon reads)
+func c08Same(got, want string) bool {
+	g, ok1 := c08Canon(got)
+	w, ok2 := c08Canon(want)
+	if !ok1 || !ok2 {
+		return got == want
+	}
+	return g == w
 }
